@@ -23,7 +23,7 @@ func init() {
 		Assumptions: []string{"envelope rules as worded by the property (draft-ietf-cose-hash-envelope-05 section 4)", "Go crypto primitives are correct"},
 		Real:        []string{"github.com/veraison/go-cose (hash_envelope.go, sign1.go, headers.go)", "github.com/fxamacker/cbor/v2", "Go crypto"},
 		Stubs:       []string{"byzantine issuer (reference encoder signing non-conforming envelopes)", "entropy source"},
-		QuickRuns:   10000, ThoroughRuns: 400000,
+		QuickRuns:   400000, ThoroughRuns: 8000000,
 	}
 }
 
